@@ -362,6 +362,45 @@ theorem advertised_accepted_net (atol fa : K) (ha : 0 ≤ atol) (hfa : 0 ≤ fa)
   · exact ⟨some v, Or.inl hv, rfl⟩
   · exact ⟨some v, Or.inr hv.symm, rfl⟩
 
+/-! ### save / resume steps inside the history of a network -/
+
+/-- SAVE / RESUME IS INVISIBLE: for every history of `register_evse` calls with
+    `from_json(to_json())` steps anywhere between them (any number, any positions, ids registered twice
+    or not), the object that comes out holds exactly the stations of the plain registration sequence, in
+    the same order, with the same `len(_voltages)`, and the cache it carries (restored VERBATIM from the
+    file, never recomputed by `_from_dict`) is the description `_update_info_store` computes for them. -/
+theorem restore_history_eq (h : List (NetEv K)) :
+    (CNet.run h).net = Net.run (regsOf h) ∧ (CNet.run h).cache = infoStore (Net.run (regsOf h)) := by
+  obtain ⟨h1, h2⟩ := cnet_run_eq h
+  exact ⟨h1, by rw [← h1]; exact h2⟩
+
+/-- … hence the three Interface accessors, which read the station order from the rebuilt `_EVSEs` and
+    the values from the restored containers, answer every id (registered or not) exactly as on the
+    network that was never saved. -/
+theorem restore_iface_eq (h : List (NetEv K)) (sid : String) :
+    ifaceAllowableC (CNet.run h) sid = ifaceAllowable (Net.run (regsOf h)) sid ∧
+    ifaceMaxC (CNet.run h) sid = ifaceMax (Net.run (regsOf h)) sid ∧
+    ifaceMinC (CNet.run h) sid = ifaceMin (Net.run (regsOf h)) sid := by
+  obtain ⟨h1, h2⟩ := cnet_run_eq h
+  have := iface_of_coherent (CNet.run h) h2 sid
+  rw [h1] at this
+  exact this
+
+/-- ADVERTISED ⇒ ACCEPTED AFTER ANY NUMBER OF SAVE / RESUME STEPS: for every history of registrations
+    (distinct ids) and restores, every station of the resulting network and every finite value the
+    Interface of the RESTORED object reports under that station's id: the station accepts the value. -/
+theorem advertised_accepted_restored (atol fa : K) (ha : 0 ≤ atol) (hfa : 0 ≤ fa)
+    (h : List (NetEv K)) (hreg : ((regsOf h).map (·.id)).Nodup)
+    (s : Station K) (hs : s ∈ (CNet.run h).net.stations) (hwf : WellFormed s.kind)
+    (c : Bool) (a : List (Bound K)) (m : Bound K)
+    (h1 : ifaceAllowableC (CNet.run h) s.id = .ok (c, a)) (h2 : ifaceMaxC (CNet.run h) s.id = .ok m)
+    (v : K) (hv : some v ∈ a ∨ m = some v) : validRate atol fa s.kind v = true := by
+  obtain ⟨e1, e2, -⟩ := restore_iface_eq h s.id
+  rw [e1] at h1
+  rw [e2] at h2
+  rw [(restore_history_eq h).1] at hs
+  exact advertised_accepted_net atol fa ha hfa (regsOf h) hreg s hs hwf c a m h1 h2 v hv
+
 /-! ### obligations on the constants and tables regenerated from the source (T1) -/
 
 /-- "within 1e-3 A": every tolerance in evse.py is 1e-3 absolute, 0 relative. -/
@@ -410,6 +449,30 @@ example : ∀ s ∈ exampleRegs, WellFormed s.kind := by
   · simp only [WellFormed]; decide +kernel
 
 example : infraOk (Net.run ([⟨"A", .cont 0 (some 32)⟩, ⟨"A", .deadband 6 none⟩] : List (Station ℚ))) = false := by
+  decide +kernel
+
+/-- a history with restores before, between and after the registrations of `exampleRegs` -/
+def exampleHist : List (NetEv ℚ) :=
+  [.restore, .reg ⟨"DB-6", .deadband 6 (some 32)⟩, .reg ⟨"DB-8", .deadband 8 (some 32)⟩, .restore,
+   .reg ⟨"FR-A", .finite (Evse.normalize [0, 8, 16, 32])⟩, .restore, .restore,
+   .reg ⟨"FR-B", .finite (Evse.normalize [32, 24, 8, 8])⟩, .restore]
+
+example :
+    (regsOf exampleHist).map (·.id) = exampleRegs.map (·.id) ∧
+    (ifaceAllowableC (CNet.run exampleHist) "DB-8").toOption = some (true, [some 8, some 32]) ∧
+    (ifaceAllowableC (CNet.run exampleHist) "FR-B").toOption = some (false, [some 0, some 8, some 24, some 32]) ∧
+    (ifaceMaxC (CNet.run exampleHist) "nope").toOption = none ∧
+    infraOkC (CNet.run exampleHist) = true := by
+  decide +kernel
+
+/-- what the theorem excludes: a writer that emits the `_EVSEs` object with its keys SORTED (ids
+    registered in non-sorted order) while the containers stay positional makes the reader advertise
+    another station's limits — the model's `Saved.load` shows it. -/
+example :
+    let c : CNet ℚ := CNet.run [.reg ⟨"Z", .finite [0, 8, 16]⟩, .reg ⟨"B", .cont 6 (some 40)⟩]
+    let sorted : Saved ℚ := { c.save with evses := [⟨"B", .cont 6 (some 40)⟩, ⟨"Z", .finite [0, 8, 16]⟩] }
+    (ifaceMaxC c.save.load "Z").toOption = some (some 16) ∧
+    (ifaceMaxC sorted.load "Z").toOption = some (some 40) := by
   decide +kernel
 
 end Acn.C13
